@@ -31,7 +31,8 @@ def gen(rng, tier):
             yield dict(mode="random", seed=rng.randrange(10 ** 5), ns=rng.randint(1, 3), nd=rng.randint(1, 3),
                        horizon=rng.choice([30, 50, 80]))
         else:
-            yield dict(mode="dyadic", spec=MU.gen_mirp(rng, tier))
+            # (every 9th instance from the malformed stream: capacity below the cargo size, zero speed, a port with rate 0)
+            yield dict(mode="dyadic", spec=MU.gen_mirp(rng, tier, malformed=(k % 9 == 4)))
 
 
 def shrink(case):
